@@ -598,8 +598,85 @@ func c02RetryStateKept(c *Ctx) {
 	p := c.P
 	rule := "C02.retry-state-kept"
 	c.Doc(rule, "bp.currentRetries[topic] (the per-topic map of partitions that are being retried) is assigned only where the lookup bp.currentRetries[topic] has just been found nil / absent for the same key: replacing an existing map would wipe the retrying mark of the topic's other partitions, whose later messages would then overtake the ones being retried")
-	c.Floor(rule, 2)
+	c.Floor(rule, 3)
 	outer := FieldLoad("brokerProducer.currentRetries")
+	var inner func(v ssa.Value) bool
+	inner = func(v ssa.Value) bool {
+		switch x := strip(v).(type) {
+		case *ssa.Lookup:
+			return outer(x.X)
+		case *ssa.Extract:
+			lk, ok := x.Tuple.(*ssa.Lookup)
+			return ok && x.Index == 0 && outer(lk.X)
+		case *ssa.Phi:
+			// `inner, ok := m[k]; if !ok { inner = make(…); m[k] = inner }`
+			any := false
+			for _, e := range x.Edges {
+				if _, isMake := e.(*ssa.MakeMap); isMake {
+					continue
+				}
+				if !inner(e) {
+					return false
+				}
+				any = true
+			}
+			return any
+		}
+		return false
+	}
+	finK, _ := p.ConstNamed("fin")
+	synK, _ := p.ConstNamed("syn")
+	// underFlag: the instruction is reached only where msg.flags has flag k set
+	underFlag := func(fn *ssa.Function, it Item, k int64) bool {
+		fi := Info(fn)
+		reg := WholeFn(fn)
+		if l := fi.InnermostLoop(itemBlock(it)); l != nil {
+			for _, l2 := range fi.Loops {
+				if l2.Blocks[itemBlock(it)] && len(l2.Blocks) > len(l.Blocks) {
+					l = l2
+				}
+			}
+			reg = fi.Iteration(l)
+		}
+		r := *reg
+		r.Cut = func(from, to *ssa.BasicBlock) bool {
+			iff, ok := lastInstr(from).(*ssa.If)
+			if !ok || len(from.Succs) != 2 {
+				return false
+			}
+			kk, setOnTrue, _, ok := flagTest(iff.Cond)
+			if !ok || kk != k {
+				return false
+			}
+			return (from.Succs[0] == to) == setOnTrue
+		}
+		reached, _ := r.Reach(IsItem(it), nil)
+		return reached.IsZero()
+	}
+	// the marks of the retrying state are cleared only by the partition's own hand-shake: its syn (the partition
+	// (re)opens on this worker: its entry is reset to nil) and its fin (the chaser is back: the entry is deleted).
+	// Nobody deletes a whole topic, and nobody clears an entry on another occasion (a success, say): the entry is what
+	// makes the worker bounce the partition's later messages — and the fin itself — until the retried ones are through
+	for _, fn := range p.Fns {
+		if rootOf(fn).Pkg != p.Sarama {
+			continue
+		}
+		for _, s := range Info(fn).Find(MapDeleteOn(outer)) {
+			c.Fail(rule, fn, "no-topic-wide-delete", s.Instr(), "a whole topic is deleted from bp.currentRetries: the retrying marks of all its partitions on this worker are lost, their later messages overtake the ones being retried and their fin is sent to the broker as an empty record", nil)
+		}
+		for _, s := range Info(fn).Find(MapDeleteOn(inner)) {
+			okFn := p.Name(rootOf(fn)) == "brokerProducer.run"
+			c.Check(okFn && underFlag(fn, s, finK), rule, fn, "entry-deleted-only-at-fin", s.Instr(), "a partition's retrying mark is deleted only where its fin arrived", "a partition's entry is deleted from bp.currentRetries elsewhere than on the arrival of its fin: with the mark gone early the fin is not bounced but buffered and sent to the broker as an empty record (a phantom record and success), and later messages overtake the retried ones", nil)
+		}
+		for _, s := range Info(fn).Find(MapUpdateOn(inner)) {
+			mu := s.In.(*ssa.MapUpdate)
+			if !IsNil()(mu.Value) {
+				continue
+			}
+			okFn := p.Name(rootOf(fn)) == "brokerProducer.run"
+			c.Check(okFn && underFlag(fn, s, synK), rule, fn, "entry-reset-only-at-syn", s.Instr(), "a partition's retrying mark is reset to nil only where its syn arrived", "a partition's entry in bp.currentRetries is reset to nil elsewhere than on the arrival of its syn", nil)
+		}
+	}
 	for _, fn := range p.Fns {
 		if fn.Pkg != p.Sarama {
 			continue
